@@ -65,7 +65,12 @@ class Lexer(object):
     @TOKEN(r'("(\\.|[^"\\])*")|(\'(\\.|[^\'\\])*\')')
     def t_STRING(self, t):
         try:
-            t.value = t.value[1:-1].encode().decode("unicode_escape")
+            # Non-ASCII characters are turned into escapes first, so that decoding the escapes leaves them intact
+            t.value = (
+                t.value[1:-1]
+                .encode("latin-1", "backslashreplace")
+                .decode("unicode_escape")
+            )
         except UnicodeDecodeError:
             # An incomplete or unknown escape sequence (e.g. a backslash before the closing quote)
             raise SyntaxError("Invalid escape sequence in string at position {0}".format(t.lexpos))
